@@ -7,8 +7,10 @@ ALL = [f"C{i:02d}" for i in range(1, 21)]
 CLAIMED = {
     "C04": dict(
         text="Proof: VCs generated from the AST of the real Bounds/Parameter code are discharged by z3 for all "
-             "lengths, bounds and overshoots; the same contracts are evaluated as run-time postconditions on a "
-             "bounded adversarial input family (labelled bounded).",
+             "lengths, bounds and overshoots; every sampler step evaluates the posterior only inside the limits in force and stores "
+             "only such points; the finite-difference gradient of HamiltonianChain takes non-zero steps that stay inside the bounds; "
+             "the same contracts are evaluated as run-time postconditions on a bounded adversarial input family (boxes far from zero, "
+             "tiny, all-negative; huge proposals).",
         note="floats idealised as reals (float-level behaviour only in the bounded layer); numpy divmod/% contracts assumed; "
              "pyvc VC generator trusted (cross-checked against CPython every run)",
         ref="3/C04"),
@@ -26,7 +28,9 @@ CLAIMED = {
              "beta*F of the very point proposed, the proposal has the stated symmetric form (one folded coordinate move, folded "
              "step along a direction, leapfrog end point from the current state, Goodman-Weare stretch about another walker) and "
              "the decision is exactly the Metropolis-Hastings rule, for all dimensions, chain lengths, temperatures and bounds. "
-             "The step from per-decision correctness to the limit law is a meta-theorem and is assumed.",
+             "The ensemble's stretch limits sqrt(2/alpha), sqrt(2 alpha) are established by the real constructor. The step from "
+             "per-decision correctness to the limit law is a meta-theorem and is assumed; bounded: long runs of every sampler (plain, "
+             "tempered, bounded, stretch parameters 1.5-3.5) reproduce the exact moments of a known target within batch-means error.",
         note="F (user log-density) uninterpreted; random draws are fresh symbols; exp/log uninterpreted; detailed balance => "
              "invariance and the jump-chain effect of re-drawing until acceptance are outside per-call contracts (DESIGN 6); "
              "modular contracts: Parameter tuning methods, update_directions, run_leapfrog (C07), mass (C07)",
@@ -34,8 +38,12 @@ CLAIMED = {
     "C03": dict(
         text="Proof: each sampler step preserves the class invariant 'k-th stored log-probability = beta*F(k-th stored sample)': the "
              "appended value is beta*F of the appended point, history is unchanged, an ensemble update rewrites exactly one walker "
-             "consistently; for all dimensions, lengths, temperatures, bounds.",
-        note="class invariant assumed on entry (constructor contracts pending); F uninterpreted; frames of modular callees assumed",
+             "consistently; for all dimensions, lengths, temperatures, bounds; every constructor establishes the invariant from exactly "
+             "one evaluation at the start point (per walker for the ensemble); a tempering exchange installs the received value at the "
+             "receiving chain's temperature. Bounded: random operation sequences on the real samplers, real tempering processes.",
+        note="F uninterpreted; frames of modular callees assumed; constructors proved for d in {1,2,3} (ensemble: any number of walkers, "
+             "start-position validation replaced by its contract); a point installed by a parallel-tempering exchange is covered by the "
+             "C08 worker contract, registered under this property too; MetropolisChain (undocumented base class) is out of scope",
         ref="3/C03"),
     "C15": dict(
         text="Proof: advance(m) takes exactly m steps for every m >= 0 (loop invariants over the 100-group split and the remainder), "
